@@ -105,11 +105,11 @@ theorem responder_decision (h : List LinkTrack.Op) (hwf : WF h) (r : Req) (l : L
     · subst hr; exact hown
     · exact hothers r' hr hsc
 
-/-- **C20.distinct_keys_decide_alone** (the responder half of `partial`).  If no other request shares
-    `r`'s dedup scope — in particular if all concurrent requests carry distinct dedup keys — the
-    responder decides for `r` exactly as if `r` were alone, under every interleaving. -/
+/-- **C20.distinct_keys_decide_alone** (the responder half of `partial`).  If no other request that is
+    in progress shares `r`'s dedup scope — in particular if all concurrent requests carry distinct
+    dedup keys — the responder decides for `r` exactly as if `r` were alone, under every interleaving. -/
 theorem distinct_keys_decide_alone (h : List LinkTrack.Op) (hwf : WF h) (r : Req) (l : Link) (b : Bool)
-    (hd : ∀ r', r' ≠ r → scopeOf r' h ≠ scopeOf r h) :
+    (hd : ∀ r', r' ≠ r → inProgress r' h = true → scopeOf r' h ≠ scopeOf r h) :
     ∃ s, (LinkTrack.step (LinkTrack.run h).1 (.trav r l b)).2 = LinkTrack.Out.sent s (travCount r h + 1) ∧
       (s = true ↔ soloDecision h r l b) := by
   obtain ⟨s, hs, hiff⟩ := responder_decision h hwf r l b
@@ -117,7 +117,17 @@ theorem distinct_keys_decide_alone (h : List LinkTrack.Op) (hwf : WF h) (r : Req
   rw [hiff]
   constructor
   · exact fun h1 => h1.1
-  · exact fun h1 => ⟨h1, fun r' hne hsc => absurd hsc (hd r' hne)⟩
+  · intro h1
+    refine ⟨h1, fun r' hne hsc => ?_⟩
+    by_cases hip : inProgress r' h = true
+    · exact absurd hsc (hd r' hne hip)
+    · -- a request that is not in progress has traversed nothing
+      have : since r' h = [] := by
+        unfold inProgress at hip
+        cases hsn : since r' h with
+        | nil => rfl
+        | cons _ _ => simp [hsn] at hip
+      simp [withBlock, this]
 
 /-- the operations of request `r` in a history -/
 def ownOps (r : Req) (h : List LinkTrack.Op) : List LinkTrack.Op := h.filter (fun o => o.req == r)
